@@ -85,9 +85,9 @@ ASSUMPTIONS = [
 CRASH_CODE = 17
 # ledger predicate (C12-F1): an MDO restart never evaluates the observables at a loaded entry that lacks them
 KNOWN_OBSERVABLE = "restart_skips_observable_of_loaded_incomplete_entry"
-# ledger predicate (C12-F2): max_iter is raised inside the new-iteration event of the last point; a crash after that
-# store (in the observable's discipline) restarts into a run that completes the last entry
-KNOWN_LAST_ENTRY = "restart_completes_last_entry_of_run_stopped_by_max_iter"
+# ledger predicate (C12-F2): max_iter / ftol / xtol stops are raised inside the new-iteration event of the last point; a
+# crash after that store (in the observable's discipline) restarts into a run that completes the last entry
+KNOWN_LAST_ENTRY = "restart_completes_last_entry_of_run_stopped_in_new_iteration_event"
 CHILD_TIMEOUT_S = 120
 MDO_ALGOS = ["SLSQP", "L-BFGS-B", "NLOPT_COBYLA"]
 DOE_ALGOS = ["LHS", "PYDOE_FULLFACT", "CustomDOE"]
@@ -767,14 +767,13 @@ def _case(p, ctx, work, workers):
                 expected_final = [(x, {n: v for n, v in vals.items() if not (n == "o" and i in missing_obs)})
                                   for i, (x, vals) in enumerate(ref["final"])]
             if not p["reset"]:
-                last_completed = (
-                    p["kind"] == "mdo" and budget_bound and len(backup) == n_full == len(final)
-                    and set(final[-1][1]) > set(expected_final[-1][1])
-                )
-                if last_completed and ctx.known(KNOWN_LAST_ENTRY):
-                    # exactly that class: the crash came after the store that made the run reach max_iter; the last
-                    # entry may hold more functions than the uninterrupted run recorded (and so may become the optimum)
-                    msg = diff_snapshots(final[:-1], expected_final[:-1]) or diff_snapshots(final[-1:], expected_final[-1:], subset_names=True)
+                msg = diff_snapshots(final, expected_final)
+                if msg is not None and p["kind"] == "mdo" and len(backup) == n_full and ctx.known(KNOWN_LAST_ENTRY):
+                    # exactly that class: the crash came after the store whose new-iteration event stopped the
+                    # uninterrupted run; the restarted run may complete this last entry and even go on (within
+                    # max_iter, checked above): only the prefix relation is required
+                    msg = diff_snapshots(final[: n_full - 1], expected_final[: n_full - 1]) or diff_snapshots(
+                        final[n_full - 1:], expected_final[n_full - 1:], prefix_only=True, subset_names=True)
                     ctx.check(msg is None, "same_history", f"restart after crash {k} (reset_iteration_counters=False): final history differs from the uninterrupted run: {msg}", k=k)
                     ctx.cls("history_equality_checked_up_to_known_findings")
                     continue
